@@ -26,6 +26,9 @@ type Req struct {
 	ExecSeq  int      // order of execution among executed requests (0 = never)
 	ExecDB   int      // database selected on the connection when it executed
 	Failed   bool     // answered with an error
+	Stamp    int64    // global order across the nodes of a cluster double (0 = standalone)
+	ExecStamp int64   // global order of execution (queued commands: when EXEC ran)
+	Node     int      // filled by clusterd.GlobalLog
 	Reply    string   // first bytes of the reply
 }
 
@@ -119,6 +122,11 @@ type Server struct {
 	Extra func(s *Server, cs *ConnState, argv [][]byte) []byte
 
 	repl *ReplLog
+
+	// Stamp, when set, yields a cluster-wide sequence number for every request.
+	Stamp func() int64
+	// ClusterMode makes INFO report cluster mode and SELECT of a non-zero db fail.
+	ClusterMode bool
 
 	scripts map[string]string
 
@@ -439,6 +447,9 @@ func (s *Server) process(cs *ConnState, argv [][]byte) {
 		return
 	}
 	r := &Req{Seq: len(s.reqs) + 1, Conn: cs.ID, Argv: argv, ExecDB: cs.DB}
+	if s.Stamp != nil {
+		r.Stamp = s.Stamp()
+	}
 	s.reqs = append(s.reqs, r)
 	if s.plan.OnRequest != nil {
 		s.plan.OnRequest(r)
@@ -470,6 +481,10 @@ func (s *Server) process(cs *ConnState, argv [][]byte) {
 	r.Reply = summarize(reply)
 	if len(reply) > 0 && reply[0] == '-' {
 		r.Failed = true
+	}
+	// ASKING is one-shot, except that it stays in force for a whole MULTI..EXEC
+	if r.Name() != "asking" && !cs.inMulti {
+		cs.Asking = false
 	}
 	s.push(cs, reply)
 	if s.plan.AfterReq != nil {
@@ -503,12 +518,21 @@ func (s *Server) dispatch(cs *ConnState, r *Req) []byte {
 		if dirty {
 			return rErr("EXECABORT Transaction discarded because of previous errors.")
 		}
+		if s.Route != nil {
+			// cluster: EXEC re-validates the slot of every queued command; a redirection
+			// aborts the whole transaction (nothing of it runs)
+			for _, qr := range q {
+				if rep := s.Route(s, cs, qr.Argv); rep != nil {
+					return rep
+				}
+			}
+		}
 		out := rArrayHdr(len(q))
 		if s.repl != nil {
 			s.repl.beginTxn()
 		}
 		for _, qr := range q {
-			rep := s.execute(cs, qr)
+			rep := s.executeNoRoute(cs, qr)
 			qr.Reply = summarize(rep)
 			out = append(out, rep...)
 		}
@@ -548,6 +572,9 @@ func (s *Server) markExecuted(cs *ConnState, r *Req) {
 	r.Executed = true
 	r.ExecSeq = s.execN
 	r.ExecDB = cs.DB
+	if s.Stamp != nil {
+		r.ExecStamp = s.Stamp()
+	}
 }
 
 func (s *Server) execute(cs *ConnState, r *Req) []byte {
@@ -556,6 +583,10 @@ func (s *Server) execute(cs *ConnState, r *Req) []byte {
 			return rep
 		}
 	}
+	return s.executeNoRoute(cs, r)
+}
+
+func (s *Server) executeNoRoute(cs *ConnState, r *Req) []byte {
 	s.markExecuted(cs, r)
 	if s.Extra != nil {
 		if rep := s.Extra(s, cs, r.Argv); rep != nil {
